@@ -264,6 +264,7 @@ fn arg(args: &[String], name: &str) -> Option<String> {
 fn main() {
     let args: Vec<String> = std::env::args().skip(1).collect();
     install_quiet_panic_hook();
+    install_host_logger(arg(&args, "--host-log").and_then(|s| s.parse().ok()).unwrap_or(0));
     svgbob_verif_once_cell::set_observer(observer);
     let seed: u64 = arg(&args, "--seed").and_then(|s| s.parse().ok()).unwrap_or(simcommon::DEFAULT_SEED);
     let emit_schedules = args.iter().any(|a| a == "--emit-schedules");
